@@ -97,7 +97,11 @@ pub fn run(ctx: &Ctx) -> i32 {
         let mut a3 = vec!["run", obj.as_str(), "--minimal"];
         a3.extend(&flag);
         let r3 = lace.run(&a3, b"");
-        for (r, what) in [(&r2, "lc3"), (&r3, "obj")] {
+        // the bare-path form `lace FILE` (documented as a quick way to run a file)
+        let mut a4 = vec![dst.as_str(), "--minimal"];
+        a4.extend(&flag);
+        let r4 = lace.run(&a4, b"");
+        for (r, what) in [(&r2, "lc3"), (&r3, "obj"), (&r4, "bare-path")] {
             if r.status != r1.status {
                 acc.violation(format!("C06/run/exit-status-differs/{what}"), format!("running the object file exits with {}, running the source with {}", r.status, r1.status), case.clone());
                 return;
